@@ -573,8 +573,11 @@ func (r *fileRewriter) expr(e ast.Expr) ast.Expr {
 				r.fail(x, "signal.%s is not supported", name)
 			case pkg == "reflect" && (name == "Select"):
 				r.fail(x, "reflect.Select is not supported")
-			case pkg == "context" && (name == "WithTimeout" || name == "WithDeadline" || name == "AfterFunc"):
-				r.fail(x, "context.%s is not supported (real timers)", name)
+			case pkg == "context" && name == "WithCancel":
+				r.stats["ctx"]++
+				return r.vrt("WithCancel")
+			case pkg == "context" && (name == "WithTimeout" || name == "WithDeadline" || name == "AfterFunc" || name == "WithCancelCause" || name == "WithTimeoutCause" || name == "WithDeadlineCause"):
+				r.fail(x, "context.%s is not supported (real timers / cancellation the channel model cannot see)", name)
 			}
 			return e
 		}
